@@ -213,7 +213,9 @@ def classify(unit_name, meta, vr):
             prim = [s for s in d['spans'] if s['primary']] or d['spans']
             txt = re.sub(r'\s+', ' ', prim[0]['text'])[:80] if prim else ''
             failures.append({'obligation': '%s::%s::body[%s: %s]' % (unit_name, fn, msg, txt), 'tags': None, 'fn': fn, 'unit': unit_name,
-                             'kind': 'body', 'message': msg, 'src': src_loc, 'rendered': d['rendered']})
+                             'kind': 'body', 'message': msg, 'src': src_loc, 'rendered': d['rendered'],
+                             # an untagged helper lemma: its failure invalidates every tagged lemma of the same lemma file
+                             'lemma_file': (where[3] if where and where[5] in ('lemma-fn', 'lemma') else None)})
     # dedupe
     seen = set()
     uniq = []
@@ -386,6 +388,8 @@ def main(argv):
             if pid in f['tags']:
                 relevant.append(f)
         elif (f['unit'], f['fn']) in fns_with_p:
+            relevant.append(f)
+        elif f.get('lemma_file') and any(ob.get('file') == f['lemma_file'] and ob['unit'] == f['unit'] for ob in my_obls):
             relevant.append(f)
 
     known = [k for k in load_known() if k.get('property') == pid and k.get('status') == 'known']
